@@ -12,7 +12,7 @@ import (
 func init() {
 	register("C12", &ruleSet{
 		run:    runC12,
-		floors: map[string]int{"O1": 1, "O2": 3, "O3": 2, "O4": 1},
+		floors: map[string]int{"O1": 1, "O2": 3, "O3": 2, "O4": 2},
 		explain: "Decides structurally for the queue limiter: (O1) bound: the enqueue is dominated by the false edge of 'backlog length >= configured maximum' (comparator " +
 			"direction; the maximum derives from the configuration after defaulting), the length read and the enqueue are one exclusive critical section of the limiter mutex, " +
 			"and the refusal edge returns at once without any blocking operation; (O2) membership typestate: after the enqueue every path to return has the caller's element " +
@@ -389,6 +389,11 @@ func runC12(p *Prog, l *Ledger) {
 					}
 				case chosen < 0:
 					// the path leaves after the enqueue without having waited at all
+					if chanV != nil && c12PushMakesChan(p, push) && pa.HoldsRel(-1, func(r Rel) bool {
+						return r.Op == token.EQL && (strip(r.X, false) == chanV || strip(pa.Resolve(r.X, len(pa.Blocks)-1), false) == chanV || phiCore(r.X) == chanV) && isNilConst(strip(r.Y, false))
+					}) {
+						break // "the hand-off channel is nil" after an enqueue that always makes one: not a path
+					}
 					if ev != 1 {
 						bad2 = append(bad2, fmt.Sprintf("a path returns after the enqueue without reaching the wait and evicts the caller's element %d times (want exactly once): a caller that has left stays listed, keeps its place in line and is handed capacity nobody will use: %s", ev, joinWitness(p.DescribePath(pa))))
 					}
@@ -665,4 +670,33 @@ func c12CallsParamOnce(p *Prog, g *ssa.Function, i int) (int, string) {
 		return 0, p.Key(g) + " has no returning path"
 	}
 	return 1, ""
+}
+
+// c12PushMakesChan: every return of the enqueue function yields a freshly made channel as its channel result.
+func c12PushMakesChan(p *Prog, push *ssa.Call) bool {
+	g := push.Call.StaticCallee()
+	if g == nil || g.Blocks == nil {
+		return false
+	}
+	ok, n := true, 0
+	allInstrs(g, func(ins ssa.Instruction) {
+		ret, isR := ins.(*ssa.Return)
+		if !isR {
+			return
+		}
+		for _, r := range ret.Results {
+			if _, isCh := r.Type().Underlying().(*types.Chan); !isCh {
+				continue
+			}
+			n++
+			v := strip(r, false)
+			if ct, isCT := v.(*ssa.ChangeType); isCT {
+				v = strip(ct.X, false)
+			}
+			if _, isMk := v.(*ssa.MakeChan); !isMk {
+				ok = false
+			}
+		}
+	})
+	return ok && n > 0
 }
